@@ -472,33 +472,30 @@ FAIL_KINDS = [None, ValueError, HarnessError1, ReRaised, ZeroDivisionError]
 
 
 def t1_pool(ctx, mode):
+    """One executor, one to three successive execute() calls on it (state must not leak between calls)."""
     import gemseo.core.parallel_execution.callable_parallel_execution as cpe
 
     t = ctx.tape
     n_tasks = t.randint(0, 7, "n_tasks")
     n_workers = t.randint(1, 4, "n_workers")
     one_callable = t.flag(0.5, "one_callable") or n_tasks == 0
-    reraise = t.flag(0.25, "reraise")
+    reraise = t.flag(0.3, "reraise")
     n_cb = t.weighted([2, 5, 2], "n_callbacks")
     cb_iterable = t.flag(0.5, "cb_iterable")
     wait = t.flag(0.15, "wait_between_fork")
     submitted_cb = t.flag(0.3, "task_submitted_cb")
     fault_budget = t.flag(0.6, "faults_on")
-    durations = [t.choice(4, f"dur[{i}]") for i in range(n_tasks)]
-    fails = [
-        (t.weighted([12, 3, 2, 2, 1], f"fail[{i}]") if fault_budget else 0) for i in range(n_tasks)
-    ]
+    n_rounds = 1 + t.weighted([5, 3, 1], "n_rounds")
     starve = mode == "thread" and t.flag(0.1, "starve_worker")
-    inputs = [3 * i + 1 for i in range(n_tasks)]
     clock = SimClock()
     tag = "T1" if mode == "thread" else "P1"
-    cfg = {
-        "workload": tag, "n_tasks": n_tasks, "n_workers": n_workers, "one_callable": one_callable,
-        "reraise": reraise, "n_callbacks": n_cb, "wait": wait, "durations": durations,
-        "fails": [FAIL_KINDS[k].__name__ if k else None for k in fails],
-    }
+    cfg = {"workload": tag, "n_tasks": n_tasks, "n_workers": n_workers, "one_callable": one_callable, "reraise": reraise,
+           "n_callbacks": n_cb, "wait": wait, "n_rounds": n_rounds}
     ctx.event("cfg", canon(cfg))
-    body_done = []
+    state = {"durations": [], "fails": [], "inputs": [], "body_done": []}
+    sig = f"{tag} n_tasks={'0' if n_tasks == 0 else '>0'}"
+    all_orders = []
+    rounds_desc = []
     with engine(ctx, mode, clock, with_locks=False) as eng:
         if starve:
             eng.s.starve.add("w0")
@@ -506,83 +503,94 @@ def t1_pool(ctx, mode):
 
         def make(i_fixed):
             def f(x):
-                i = inputs.index(x)
-                eng.work(durations[i])
-                body_done.append(i)
-                if fails[i]:
-                    raise FAIL_KINDS[fails[i]](f"injected failure of task {i}")
+                i = state["inputs"].index(x)
+                eng.work(state["durations"][i])
+                state["body_done"].append(i)
+                if state["fails"][i]:
+                    raise FAIL_KINDS[state["fails"][i]](f"injected failure of task {i}")
                 return x * 10 + (0 if i_fixed is None else i_fixed)
             return f
 
         workers = [make(None)] if one_callable else [make(i) for i in range(n_tasks)]
-
-        def expected(i):
-            return inputs[i] * 10 + (0 if one_callable else i)
-
-        logs = [[] for _ in range(n_cb)]
-        cbs = [(lambda i, o, log=log: log.append((i, o))) for log in logs]
-        cb_arg = cbs[0] if (n_cb == 1 and not cb_iterable) else cbs
-        submitted = []
         pool = cpe.CallableParallelExecution(
             workers, n_processes=n_workers, use_threading=mode == "thread",
             wait_time_between_fork=0.5 if wait else 0.0,
             exceptions_to_re_raise=(KeyError,) if reraise else (),
         )
-        out = exc = None
-        try:
-            out = pool.execute(
-                inputs, exec_callback=cb_arg,
-                task_submitted_callback=(lambda: submitted.append(1)) if submitted_cb else None,
-            )
-        except Deadlock as d:
-            ctx.violate("C13.liveness", f"{tag} deadlock", str(d))
-        except Exception as e:  # noqa: BLE001
-            exc = e
-        alive = eng.alive()
-        if mode == "proc":
-            body_done = [i for kind, i in eng.e.actions if kind == "start"]
-            completion = [i for kind, i in eng.e.actions if kind == "complete"]
-        else:
-            completion = None
+        for rnd in range(n_rounds):
+            with t.frame("round"):
+                durations = [t.choice(4, f"dur[{rnd}][{i}]") for i in range(n_tasks)]
+                fails = [(t.weighted([12, 3, 2, 2, 1], f"fail[{rnd}][{i}]") if fault_budget else 0) for i in range(n_tasks)]
+                inputs = [1000 * rnd + 3 * i + 1 for i in range(n_tasks)]
+                state.update(durations=durations, fails=fails, inputs=inputs, body_done=[])
+
+                def expected(i):
+                    return inputs[i] * 10 + (0 if one_callable else i)
+
+                logs = [[] for _ in range(n_cb)]
+                cbs = [(lambda i, o, log=log: log.append((i, o))) for log in logs]
+                cb_arg = cbs[0] if (n_cb == 1 and not cb_iterable) else cbs
+                submitted = []
+                out = exc = None
+                try:
+                    out = pool.execute(
+                        inputs, exec_callback=cb_arg,
+                        task_submitted_callback=(lambda: submitted.append(1)) if submitted_cb else None,
+                    )
+                except Deadlock as d:
+                    ctx.violate("C13.liveness", f"{tag} deadlock", str(d))
+                except Exception as e:  # noqa: BLE001
+                    exc = e
+                alive = eng.alive()
+                if mode == "proc":
+                    acts = list(eng.e.actions)  # the engine starts a new action list at every execute()
+                    body_done = [i for kind, i in acts if kind == "start"]
+                    completion = [i for kind, i in acts if kind == "complete"]
+                else:
+                    body_done = list(state["body_done"])
+                    completion = None
+                failing = {i for i in range(n_tasks) if fails[i]}
+                ctx.fire("task_raises", len([i for i in body_done if i in failing]))
+                ctx.fire("long_task", len([i for i in body_done if durations[i] >= 2]))
+                reraisable = {i for i in failing if issubclass(FAIL_KINDS[fails[i]], KeyError)} if reraise else set()
+                ctx.event("out", rnd, canon(out), canon(exc), canon(logs), tuple(body_done))
+                rdesc = {"durations": durations, "fails": [FAIL_KINDS[k].__name__ if k else None for k in fails]}
+                rounds_desc.append(rdesc)
+                rsig = sig + (" round>0" if rnd else "")
+                if exc is not None:
+                    if not reraisable or not isinstance(exc, ReRaised):
+                        ctx.violate("C13.returns", rsig + f" raised={type(exc).__name__}",
+                                    f"round {rnd}: execute raised {exc!r} but no re-raisable failure was injected; cfg={cfg} rounds={rounds_desc}")
+                    for log in logs:
+                        seen = set()
+                        for i, o in log:
+                            if i in seen or i in failing or o != expected(i):
+                                ctx.violate("C13.callback", rsig, f"round {rnd}: callback log {log} under re-raise; cfg={cfg} rounds={rounds_desc}")
+                            seen.add(i)
+                    ctx.probe("reraised")
+                    if rnd + 1 < n_rounds:
+                        ctx.probe("execute_again_after_reraise")
+                else:
+                    if reraisable:
+                        ctx.violate("C13.reraise", rsig, f"round {rnd}: a re-raisable failure was injected for tasks {sorted(reraisable)} but execute returned {out}; cfg={cfg}")
+                    exp = [None if i in failing else expected(i) for i in range(n_tasks)]
+                    if out != exp:
+                        ctx.violate("C13.positional", rsig, f"round {rnd}: outputs {out} != expected {exp}; cfg={cfg} rounds={rounds_desc}")
+                    for log in logs:
+                        if sorted(log) != sorted((i, expected(i)) for i in range(n_tasks) if i not in failing):
+                            ctx.violate("C13.callback", rsig, f"round {rnd}: callback log {log}; failing={sorted(failing)}; cfg={cfg} rounds={rounds_desc}")
+                        if completion is not None and [i for i, _ in log] != [i for i in completion if i not in failing]:
+                            ctx.violate("C13.callback", rsig + " order", f"round {rnd}: callback order {log} differs from the completion order {completion} chosen by the schedule; cfg={cfg}")
+                    if alive:
+                        ctx.violate("C13.liveness", rsig, f"workers still alive after execute returned: {alive}")
+                    if submitted_cb and len(submitted) != 1:
+                        ctx.violate("C13.callback", rsig + " task_submitted", f"task_submitted_callback called {len(submitted)} times")
+                order = tuple(i for i, _ in logs[0]) if logs else tuple(completion or body_done)
+                if order != tuple(sorted(order)):
+                    ctx.probe("completion_order_differs_from_submission")
+                if tuple(body_done) != tuple(sorted(body_done)):
+                    ctx.probe("body_order_differs_from_submission")
+                all_orders.append((tuple(sorted(failing)), tuple(body_done), order))
     ctx.sim_time += clock.covered
-    failing = {i for i in range(n_tasks) if fails[i]}
-    ctx.fire("task_raises", len([i for i in body_done if i in failing]))
-    ctx.fire("long_task", len([i for i in body_done if durations[i] >= 2]))
-    reraisable = {i for i in failing if issubclass(FAIL_KINDS[fails[i]], KeyError)} if reraise else set()
-    ctx.event("out", canon(out), canon(exc), canon(logs), tuple(body_done))
-    sig = f"{tag} n_tasks={'0' if n_tasks == 0 else '>0'}"
-    if exc is not None:
-        if not reraisable or not isinstance(exc, ReRaised):
-            ctx.violate("C13.returns", sig + f" raised={type(exc).__name__}",
-                        f"execute raised {exc!r} but no re-raisable failure was injected; cfg={cfg}")
-        for log in logs:
-            seen = set()
-            for i, o in log:
-                if i in seen or i in failing or o != expected(i):
-                    ctx.violate("C13.callback", sig, f"callback log {log} under re-raise; cfg={cfg}")
-                seen.add(i)
-        ctx.probe("reraised")
-    else:
-        if reraisable:
-            ctx.violate("C13.reraise", sig, f"a re-raisable failure was injected for tasks {sorted(reraisable)} but execute returned {out}; cfg={cfg}")
-        exp = [None if i in failing else expected(i) for i in range(n_tasks)]
-        if out != exp:
-            ctx.violate("C13.positional", sig, f"outputs {out} != expected {exp}; cfg={cfg}")
-        for log in logs:
-            if sorted(log) != sorted((i, expected(i)) for i in range(n_tasks) if i not in failing):
-                ctx.violate("C13.callback", sig, f"callback log {log}; failing={sorted(failing)}; cfg={cfg}")
-            if completion is not None and [i for i, _ in log] != [i for i in completion if i not in failing]:
-                ctx.violate("C13.callback", sig + " order", f"callback order {log} differs from the completion order {completion} chosen by the schedule; cfg={cfg}")
-        if alive:
-            ctx.violate("C13.liveness", sig, f"workers still alive after execute returned: {alive}")
-        if submitted_cb and len(submitted) != 1:
-            ctx.violate("C13.callback", sig + " task_submitted", f"task_submitted_callback called {len(submitted)} times")
-    order = tuple(i for i, _ in logs[0]) if logs else tuple(completion or body_done)
-    if order != tuple(sorted(order)):
-        ctx.probe("completion_order_differs_from_submission")
-    if tuple(body_done) != tuple(sorted(body_done)):
-        ctx.probe("body_order_differs_from_submission")
-    ctx.case((tag, n_tasks, n_workers, tuple(sorted(failing)), tuple(body_done), order),
-             nontrivial=n_tasks >= 2 and n_workers >= 2)
-    ctx.sample = {"cfg": cfg, "body_order": list(body_done), "completion_or_callback_order": list(order),
-                  "outputs": out, "raised": repr(exc) if exc else None}
+    ctx.case((tag, n_tasks, n_workers, tuple(all_orders)), nontrivial=n_tasks >= 2 and n_workers >= 2)
+    ctx.sample = {"cfg": cfg, "rounds": rounds_desc, "orders(failing, body, completion/callback)": [list(map(list, o)) for o in all_orders]}
